@@ -644,18 +644,57 @@ func mapAggregateNestedTargets(
 	}
 
 	if target.filter.HasValue() {
-		for topKey, topCond := range target.filter.Value().Conditions {
-			switch cond := topCond.(type) {
-			case map[string]any:
-				for _, innerCond := range cond {
-					if _, isMap := innerCond.(map[string]any); isMap {
+		mapAggregateNestedFilterTargets(target.filter.Value().Conditions, hostSelectRequest)
+	}
+}
+
+// mapAggregateNestedFilterTargets appends a child select to the host for every related object
+// that the given filter conditions reach into.
+//
+// The compound operators are not fields: their inner conditions are searched instead.
+func mapAggregateNestedFilterTargets(
+	conditions map[string]any,
+	hostSelectRequest *request.Select,
+) {
+	for topKey, topCond := range conditions {
+		switch topKey {
+		case request.FilterOpNot:
+			if inner, ok := topCond.(map[string]any); ok {
+				mapAggregateNestedFilterTargets(inner, hostSelectRequest)
+			}
+			continue
+		case request.FilterOpAnd, request.FilterOpOr:
+			if inners, ok := topCond.([]any); ok {
+				for _, inner := range inners {
+					if inner, ok := inner.(map[string]any); ok {
+						mapAggregateNestedFilterTargets(inner, hostSelectRequest)
+					}
+				}
+			}
+			continue
+		case request.AliasFieldName:
+			continue
+		}
+
+		switch cond := topCond.(type) {
+		case map[string]any:
+			for _, innerCond := range cond {
+				if _, isMap := innerCond.(map[string]any); isMap {
+					alreadyMapped := false
+					for _, f := range hostSelectRequest.Fields {
+						if s, ok := f.(*request.Select); ok && s.Name == topKey {
+							alreadyMapped = true
+							break
+						}
+					}
+					if !alreadyMapped {
 						hostSelectRequest.Fields = append(hostSelectRequest.Fields, &request.Select{
 							Field: request.Field{
 								Name: topKey,
 							},
 						})
-						break
 					}
+					break
 				}
 			}
 		}
